@@ -244,6 +244,23 @@ class ProblemParser:
         for expression in init_ast:
             self.parse_state_component(expression)
 
+    def _validate_numeric_goal_fluents(
+        self, expression: Union[str, List[Union[str, List[str]]]]
+    ) -> None:
+        """Validates that the grounded fluents of a numeric goal condition match their definitions in the domain.
+
+        :param expression: the AST of the numeric goal condition (or one of its sub-expressions).
+        """
+        if isinstance(expression, str):
+            return
+
+        if expression[0] in self.domain.functions:
+            self.parse_grounded_numeric_fluent(expression)
+            return
+
+        for sub_expression in expression[1:]:
+            self._validate_numeric_goal_fluents(sub_expression)
+
     def parse_goal_state(
         self, goal_state_ast: List[List[Union[str, List[str]]]]
     ) -> None:
@@ -270,6 +287,7 @@ class ProblemParser:
                 self.problem.goal_state_predicates.append(grounded_predicate)
                 continue
 
+            self._validate_numeric_goal_fluents(expression)
             numeric_goal_statement = NumericalExpressionTree(
                 construct_expression_tree(expression, self.domain.functions)
             )
